@@ -124,7 +124,7 @@ func c19Tokens(o json.Options) string {
 	case jsonflags.Bools:
 		if uint64(x)&uint64(jsonflags.NonBooleanFlags) != 0 {
 			// hypothesis Opt.WF of the Lean theorems: a Bools option never names a non-boolean flag
-			fail("C19: public constructor produced a Bools option naming a non-boolean flag: %x", uint64(x))
+			c19WFBroken = append(c19WFBroken, uint64(x))
 		}
 		return fmt.Sprintf("B %x", uint64(x))
 	case interface{ ExperimentalSupportFormatTag() bool }:
@@ -157,6 +157,8 @@ func c19Tokens(o json.Options) string {
 	fail("C19: option of unexpected dynamic type %T", o)
 	return ""
 }
+
+var c19WFBroken []uint64
 
 var c19Ptrs = map[uintptr]int{0: 0}
 
@@ -253,6 +255,10 @@ func runC19(c *Ctx) {
 	or := c.NewOracle()
 	c19FlagsCorr(c, or)
 	c19OptsSeqs(c, or)
+	for _, w := range c19WFBroken {
+		c.Violate("corr-opts-wf", "Bools", nil, map[string]any{"word": fmt.Sprintf("%x", w),
+			"broken": "hypothesis Opt.WF of struct_join_map: a Bools option names a non-boolean flag"})
+	}
 	c19Scoped(c)
 	c19V1V2(c)
 	c19NonInterference(c)
